@@ -173,17 +173,25 @@ func bigOp(op string, d []byte, extra []string) {
 
 // --- resource: deterministic witnesses
 
-func aliasCase(file []byte) string {
+func aliasCase(file []byte, typ int) string {
 	es := pgdump.ReadTuples(file, false)
 	total := 0
 	for _, e := range es {
 		total += len(e.Tuple.Data)
 	}
 	if total > len(file) {
-		// more tuple data reported than the file holds: line pointers share storage (open finding C10-page-alias)
+		// more tuple data reported than the file holds: line pointers share storage (finding C10-page-alias,
+		// repaired by fixes/heap/02: ParsePage skips a pointer that overlaps an already reported tuple)
 		return fmt.Sprintf("amplified:%d", len(es))
 	}
-	return "ok"
+	// the allocation the finding was about: every reported tuple is decoded (one column of type `typ`); an all-NULL
+	// array is granted what `nullarr` grants a valid one, any other column what `heap` grants
+	b := bigBounds["heap"]
+	if typ == 1007 {
+		b = bigBounds["nullarr"]
+	}
+	cols := []pgdump.Column{{Name: "a", TypID: typ, Len: -1}}
+	return withinBound("alias", b, len(file), func() { pgdump.ReadRows(file, cols, false) })
 }
 
 func reasmCase(name string, ptr, stored []byte) string {
@@ -262,7 +270,7 @@ func init() {
 	core.Register("resource", checkedFiles(func(args []string) string {
 		switch args[0] {
 		case "alias":
-			return aliasCase(unhex(args[1]))
+			return aliasCase(unhex(args[1]), atoi(args[2]))
 		case "reasm":
 			return reasmCase(args[1], unhex(args[2]), unhex(args[3]))
 		case "seqscan", "dropscan":
